@@ -20,7 +20,9 @@ ASSUMPTIONS = ["buffers are allocated at exactly the documented sizes; a sanitiz
 RULE = ("all exported routines through ctypes on an ASan+UBSan build: distance (4 instances), warping paths into a "
         "compact buffer of dtw_settings_wps_length, dtw_expand_wps, dtw_best_path / dtw_warping_path into index arrays "
         "of len1+len2, lb_keogh, ub_euclidean(_ndim), distance matrices (ptrs/matrix, serial/parallel, blocks) into "
-        "dtw_distances_length outputs, dtw_dba_ptrs/matrix; (len1,len2) in 1..7 x window 0..max+1 x psi 4-tuples <= "
+        "dtw_distances_length outputs, dtw_dba_ptrs/matrix; the tools on the compact array (dtw_wps_max, negativize / "
+        "positivize with slices and single cells, dtw_wps_loc_columns) and the affinity kernels (fill, expand, slice "
+        "expansion, dtw_best_path_affinity); (len1,len2) in 1..7 x window 0..max+1 x psi 4-tuples <= "
         "lengths x penalty/max_step/max_dist/pruning x ndim x inner distance")
 GUARD = "series length >= 1, psi <= lengths, valid blocks"
 IMPL_ENV = {"VERIF_LIBDD": "libdd_asan.so", "PYTHONMALLOC": "malloc",
@@ -31,7 +33,8 @@ IMPL_ENV = {"VERIF_LIBDD": "libdd_asan.so", "PYTHONMALLOC": "malloc",
 CHUNK_TIMEOUT = 40
 CHUNK = 60
 
-ROUTINES = ["distance", "wps_expand_path", "warping_path", "bounds", "matrix", "dba", "expand_slice"]
+ROUTINES = ["distance", "wps_expand_path", "warping_path", "bounds", "matrix", "dba", "expand_slice", "wps_tools",
+            "affinity"]
 
 
 def gen_cases(rng, tier):
@@ -75,6 +78,20 @@ def gen_cases(rng, tier):
             if not any(case["mask"]):
                 case["mask"][0] = True
             case["avg_len"] = rng.randint(1, maxlen)
+        if rt in ("wps_tools", "affinity"):
+            # slices for negativize / positivize / slice expansion, a start cell for the affinity traceback
+            sl = []
+            for _ in range(2):
+                rb = rng.randint(0, r)
+                re = rng.randint(rb + 1, r + 1)
+                cb = rng.randint(0, c)
+                ce = rng.randint(cb + 1, c + 1)
+                sl.append([rb, re, cb, ce, rng.random() < 0.5])
+            case["slices"] = sl
+            case["self"] = (r == c) and rng.random() < 0.5
+            if rt == "affinity":
+                st["psi"] = [0, 0, 0, 0]
+                st["inner_dist"] = "squared euclidean"
         if rt == "expand_slice":
             rb = rng.randint(0, r)
             re = rng.randint(rb + 1, r + 1)
@@ -116,6 +133,41 @@ def impl_run(case):
         else:
             out.append(L.ub_euclidean_ndim(a, r, b, c, nd))
             out.append(L.ub_euclidean_ndim_euclidean(a, r, b, c, nd))
+        return out
+    if rt in ("wps_tools", "affinity"):
+        n = L.dtw_settings_wps_length(r, c, C.byref(st))
+        wps = (C.c_double * n)()
+        if rt == "wps_tools":
+            L.dtw_warping_paths(wps, a, r, b, c, True, True, False, C.byref(st))
+        else:
+            L.dtw_warping_paths_affinity(wps, a, r, (a if case.get("self") else b), c, True, True, False,
+                                         bool(case.get("self")), 1.0, 0.2, -0.4, 0.9, C.byref(st))
+        p = L.dtw_wps_parts(r, c, C.byref(st))
+        mr = craw.idx_t(0)
+        mc = craw.idx_t(0)
+        L.dtw_wps_max(C.byref(p), wps, C.byref(mr), C.byref(mc), r, c)
+        out = [int(mr.value), int(mc.value)]
+        if rt == "affinity":
+            i1 = (craw.idx_t * (r + c))()
+            i2 = (craw.idx_t * (r + c))()
+            if 1 <= mr.value <= r and 1 <= mc.value <= c:
+                out.append(int(L.dtw_best_path_affinity(wps, i1, i2, r, c, mr.value, mc.value, C.byref(st))))
+            full = (C.c_double * ((r + 1) * (c + 1)))()
+            L.dtw_expand_wps_affinity(wps, full, r, c, C.byref(st))
+        for (rb, re, cb, ce, inter) in case["slices"]:
+            if rt == "affinity":
+                sl = (C.c_double * ((re - rb) * (ce - cb)))()
+                L.dtw_expand_wps_slice_affinity(wps, sl, r, c, rb, re, cb, ce, C.byref(st))
+            L.dtw_wps_negativize(C.byref(p), wps, r, c, rb, re, cb, ce, inter)
+            L.dtw_wps_max(C.byref(p), wps, C.byref(mr), C.byref(mc), r, c)
+            L.dtw_wps_positivize(C.byref(p), wps, r, c, rb, re, cb, ce, inter)
+        for rr in range(1, r + 1):
+            cbv = craw.idx_t(0)
+            cev = craw.idx_t(0)
+            L.dtw_wps_loc_columns(C.byref(p), rr, C.byref(cbv), C.byref(cev), r, c)
+            for cc in range(max(int(cbv.value), 0), min(int(cev.value), c + 1)):
+                L.dtw_wps_negativize_value(C.byref(p), wps, r, c, rr, cc)
+                L.dtw_wps_positivize_value(C.byref(p), wps, r, c, rr, cc)
         return out
     if rt in ("wps_expand_path", "expand_slice"):
         n = L.dtw_settings_wps_length(r, c, C.byref(st))
